@@ -33,6 +33,45 @@ def py_init_accepts(params):
         return False
 
 
+def tv_probs(ctx, cases, lines):
+    rng = ctx.rng
+    from fractions import Fraction
+    # --- MixedInitialize probabilities
+    from qclib.state_preparation import MixedInitialize
+    pvs = []
+    for k in (1, 2, 3, 4, 5):
+        base = rng.random(k) + 0.05
+        base = base / base.sum()
+        for off in [0.0, 1e-13, 1e-11, -1e-11, 5e-10, -5e-10, 2e-9, -2e-9, 1e-6, 0.1, -0.1, 1.0]:
+            p = base.copy()
+            p[0] += off
+            pvs.append(list(p))
+        pvs.append([1.5] + [-0.5 / max(k - 1, 1)] * (k - 1) if k > 1 else [1.5])
+        pvs.append([-0.2] + [1.2 / max(k - 1, 1)] * (k - 1) if k > 1 else [-0.2])
+        pvs.append([1.0] + [0.0] * (k - 1))
+        pvs.append([0.0] * k)
+    for p in pvs:
+        s = float(sum(p))
+        if abs(abs(s - 1.0) - 1e-9 * max(abs(s), 1.0)) < 2e-12:
+            continue
+        k = len(p)
+        states = [list(np.eye(2)[i % 2]) for i in range(k)]
+        try:
+            MixedInitialize(states, probabilities=list(p))
+            acc = True
+        except ValueError:
+            acc = False
+        cases.append(("MixedInitialize(probabilities)", k, [float(x).hex() for x in p], acc))
+        # the source sums floats left to right; give Coq the exact rational of that float sum through a one-element
+        # list whenever all entries are valid, else the entries themselves (sign / >1 tests are exact on floats)
+        if all(0.0 <= x <= 1.0 for x in p):
+            ql = "[" + "; ".join(coq_q(Fraction(x)) for x in p[:-1]) + ("; " if k > 1 else "") \
+                 + coq_q(Fraction(s) - sum(Fraction(x) for x in p[:-1])) + "]"
+        else:
+            ql = "[" + "; ".join(coq_q(Fraction(x)) for x in p) + "]"
+        lines.append(f"(Bool.eqb (probs_accept {ql}) {'true' if acc else 'false'})")
+
+
 def tv(ctx):
     rng = ctx.rng
     cases, lines = [], []
@@ -77,40 +116,7 @@ def tv(ctx):
             acc = False
         cases.append(("gates.util.check_u2(shape)", r, c, acc))
         lines.append(f"(Bool.eqb (u2_shape_accept {r}%N {c}%N) {'true' if acc else 'false'})")
-    # --- MixedInitialize probabilities
-    from qclib.state_preparation import MixedInitialize
-    pvs = []
-    for k in (1, 2, 3, 4, 5):
-        base = rng.random(k) + 0.05
-        base = base / base.sum()
-        for off in [0.0, 1e-13, 1e-11, -1e-11, 5e-10, -5e-10, 2e-9, -2e-9, 1e-6, 0.1, -0.1, 1.0]:
-            p = base.copy()
-            p[0] += off
-            pvs.append(list(p))
-        pvs.append([1.5] + [-0.5 / max(k - 1, 1)] * (k - 1) if k > 1 else [1.5])
-        pvs.append([-0.2] + [1.2 / max(k - 1, 1)] * (k - 1) if k > 1 else [-0.2])
-        pvs.append([1.0] + [0.0] * (k - 1))
-        pvs.append([0.0] * k)
-    for p in pvs:
-        s = float(sum(p))
-        if abs(abs(s - 1.0) - 1e-9 * max(abs(s), 1.0)) < 2e-12:
-            continue
-        k = len(p)
-        states = [list(np.eye(2)[i % 2]) for i in range(k)]
-        try:
-            MixedInitialize(states, probabilities=list(p))
-            acc = True
-        except ValueError:
-            acc = False
-        cases.append(("MixedInitialize(probabilities)", k, [float(x).hex() for x in p], acc))
-        # the source sums floats left to right; give Coq the exact rational of that float sum through a one-element
-        # list whenever all entries are valid, else the entries themselves (sign / >1 tests are exact on floats)
-        if all(0.0 <= x <= 1.0 for x in p):
-            ql = "[" + "; ".join(coq_q(Fraction(x)) for x in p[:-1]) + ("; " if k > 1 else "") \
-                 + coq_q(Fraction(s) - sum(Fraction(x) for x in p[:-1])) + "]"
-        else:
-            ql = "[" + "; ".join(coq_q(Fraction(x)) for x in p) + "]"
-        lines.append(f"(Bool.eqb (probs_accept {ql}) {'true' if acc else 'false'})")
+    tv_probs(ctx, cases, lines)
     for c in cases:
         ctx.count("tv:" + c[0], key=c[:-1], nontrivial=not c[-1],
                   sample={"function": c[0], "input": list(c[1:-1]), "accepted": c[-1]} if (c[1] in (8, 3) and not c[-1]) else None)
